@@ -240,6 +240,8 @@ class Engine:
             return self.coerce(inner, ty, st)
         if ty.kind == 'Ref' and v.ty.kind == 'Ref':
             return V(ty, v.t)
+        if v.ty.kind in ('Set', 'Dict', 'List') and v.ty.kind == ty.kind and v.ty.args and v.ty.args[0].kind == 'Bottom':
+            return self.materialize_empty(v, ty, st)    # untyped empty literal: gets its type here
         if ty.kind in ('List', 'Np1') and v.ty.kind in ('List', 'Np1') and ty.args == v.ty.args:
             return V(ty, v.t, v.loc)
         if ty.kind in ('List', 'Np1') and v.ty.kind in ('List', 'Np1'):
@@ -431,6 +433,11 @@ class Engine:
             return V(PY, py=('enumcls', n))
         if n in self.db.classes:
             return V(PY, py=('class', n))
+        if self.in_spec and n in (self.contract.get('locals') or {}):
+            # a declared local that this path never assigned: an arbitrary value (the clause has to guard its use)
+            t = parse_type(self.contract['locals'][n])
+            term = z3.Const(fresh_name('unassigned_' + n), sort_of(t))
+            return self.new_cell(st, t, term, track=False) if t.is_container else V(t, term)
         raise Unsupported(f'unknown name {n!r} at line {getattr(node, "lineno", "?")}')
 
     def e_Tuple(self, node, st):
